@@ -430,22 +430,38 @@ def ownership(ctx, world):
         return False, f"unknown buffer {str(t)[:50]}"
 
     def walk_paths(t, facts):
-        """every path of the function with the facts it establishes about (prev present, prev mutable, g sparse);
-        conditions are reduced to canonical atoms first, so `if not mutable:` / `if prev is None:` / flipped
-        branches give the same facts"""
+        """exhaustive case analysis over the three decision atoms of add_outgrads - (prev present?, prev mutable?,
+        g sparse?) - in whatever polarity, order, nesting or expression position (statement `if`, conditional
+        expression inside an argument) they are consulted: the function term is specialised under each
+        valuation and every remaining path is yielded with that valuation as its facts"""
         is_sparse_atom = lambda a: a.op == "cmp" and a.opname == "In"
-        for c in cases(unseq(t)):
-            fs = set(facts)
-            for a, pol in c.facts:
-                if a is prev:
-                    fs.add(("prev", pol))
-                elif a.op == "cmp" and a.opname in ("Is", "Eq") and ((a.l is prev and _is_none(a.r)) or (a.r is prev and _is_none(a.l))):
-                    fs.add(("prev", not pol))
-                elif is_prev_flag(a):
-                    fs.add(("mutable", pol))
-                elif is_sparse_atom(a):
-                    fs.add(("sparse", pol))
-            yield fs, c.leaf
+
+        def kind(a):
+            if a is prev:
+                return ("prev", True)
+            if a.op == "cmp" and a.opname in ("Is", "Eq") and ((a.l is prev and _is_none(a.r)) or (a.r is prev and _is_none(a.l))):
+                return ("prev", False)
+            if is_prev_flag(a):
+                return ("mutable", True)
+            if is_sparse_atom(a):
+                return ("sparse", True)
+            return None
+
+        t = unseq(t)
+        for pv in (True, False):
+            for mv in ((True, False) if pv else (None,)):
+                for sv in (True, False):
+                    val = {"prev": pv, "mutable": mv, "sparse": sv}
+
+                    def decide(a, val=val):
+                        k = kind(a)
+                        if k is None or val[k[0]] is None:
+                            return None
+                        return val[k[0]] if k[1] else (not val[k[0]])
+
+                    fs = {(k, v) for k, v in val.items() if v is not None}
+                    for c in cases(specialise(t, decide)):
+                        yield set(fs), c.leaf
 
     for facts, leaf in walk_paths(r, set()):
         n += 1
@@ -616,24 +632,7 @@ def inplace_sites(ctx, world, scope="all"):
             if fnode.args.kwarg:
                 params.add(fnode.args.kwarg.arg)
             own = [x for st in fnode.body for x in ast.walk(st) if _encl(x) is fnode]
-            local_defs = {}
-            for x in own:
-                if isinstance(x, ast.Assign):
-                    for t in x.targets:
-                        if isinstance(t, ast.Name):
-                            local_defs.setdefault(t.id, []).append(x.value)
-                        elif isinstance(t, ast.Tuple):
-                            for e in t.elts:
-                                if isinstance(e, ast.Name):
-                                    local_defs.setdefault(e.id, []).append(None)
-                elif isinstance(x, (ast.For, ast.comprehension)):
-                    for e in ast.walk(x.target):
-                        if isinstance(e, ast.Name):
-                            local_defs.setdefault(e.id, []).append(None)
-                elif isinstance(x, ast.withitem) and x.optional_vars is not None:
-                    for e in ast.walk(x.optional_vars):
-                        if isinstance(e, ast.Name):
-                            local_defs.setdefault(e.id, []).append(None)
+            local_defs = _local_defs_of(fnode)
             sites = []
             for x in own:
                 if isinstance(x, ast.AugAssign):
@@ -756,6 +755,30 @@ def _free_names(fnode, name):
     return set()
 
 
+def _local_defs_of(fnode):
+    """name -> list of defining expressions (None for bindings by unpacking / iteration / with) of a function"""
+    own = [x for st in fnode.body for x in ast.walk(st) if _encl(x) is fnode]
+    local_defs = {}
+    for x in own:
+        if isinstance(x, ast.Assign):
+            for t in x.targets:
+                if isinstance(t, ast.Name):
+                    local_defs.setdefault(t.id, []).append(x.value)
+                elif isinstance(t, ast.Tuple):
+                    for e in t.elts:
+                        if isinstance(e, ast.Name):
+                            local_defs.setdefault(e.id, []).append(None)
+        elif isinstance(x, (ast.For, ast.comprehension)):
+            for e in ast.walk(x.target):
+                if isinstance(e, ast.Name):
+                    local_defs.setdefault(e.id, []).append(None)
+        elif isinstance(x, ast.withitem) and x.optional_vars is not None:
+            for e in ast.walk(x.optional_vars):
+                if isinstance(e, ast.Name):
+                    local_defs.setdefault(e.id, []).append(None)
+    return local_defs
+
+
 def _fresh_expr(world, mod, v, local_defs, params, depth=0):
     """does expression v evaluate to freshly allocated memory (owned by this function)?"""
     if v is None or depth > 4:
@@ -793,9 +816,13 @@ def _fresh_expr(world, mod, v, local_defs, params, depth=0):
         if r is not None and r.kind == "repo" and isinstance(r.node, ast.Lambda):
             return _fresh_expr(world, r.mod, r.node.body, {}, {a.arg for a in r.node.args.args}, depth + 1)
         if r is not None and r.kind == "repo" and isinstance(r.node, ast.FunctionDef) and not r.node.decorator_list:
-            rets = [x.value for x in ast.walk(r.node) if isinstance(x, ast.Return) and x.value is not None]
+            rets = [x.value for x in ast.walk(r.node) if isinstance(x, ast.Return) and x.value is not None and _encl(x) is r.node]
             ps = {a.arg for a in r.node.args.args}
-            res = [_fresh_expr(world, r.mod, v2, {}, ps, depth + 1) for v2 in rets]
+            if r.node.args.vararg:
+                ps.add(r.node.args.vararg.arg)
+            if r.node.args.kwarg:
+                ps.add(r.node.args.kwarg.arg)
+            res = [_fresh_expr(world, r.mod, v2, _local_defs_of(r.node), ps, depth + 1) for v2 in rets]
             if res and all(o for o, _ in res):
                 return True, f"{r.name}(...) returns fresh memory on every path"
             return False, f"{r.name}(...) may return (a view of) its argument"
